@@ -184,18 +184,57 @@ func (c *CR) P() *int64 { return &c.V }
 func (c *CS) P() *int64 { return &c.V }
 
 // Filler components for high arities (C14) and ID layouts (C18).
-type CF1 struct{ V int64 }
-type CF2 struct{ V int64 }
+// Filler components of the high arities: sizes and payload offsets differ between neighbours in the instantiated
+// tuples (24, 32, 8, 32, 24, 16, 32, 40, 48, 16, 56, 48 bytes), so that an item size or a column taken from the
+// neighbouring type parameter addresses the wrong bytes (seed C20-query7-get-itemsize-nodebug).
+type CF1 struct {
+	V int64
+	X int8
+	Y int64
+}
+type CF2 struct {
+	X int32
+	V int64
+	Y [2]int64
+}
 type CF3 struct{ V int64 }
-type CF4 struct{ V int64 }
-type CF5 struct{ V int64 }
-type CF6 struct{ V int64 }
-type CF7 struct{ V int64 }
-type CF8 struct{ V int64 }
-type CF9 struct{ V int64 }
-type CF10 struct{ V int64 }
-type CF11 struct{ V int64 }
-type CF12 struct{ V int64 }
+type CF4 struct {
+	X [3]int64
+	V int64
+}
+type CF5 struct {
+	V    int64
+	Y, Z int64
+}
+type CF6 struct {
+	X int16
+	V int64
+}
+type CF7 struct {
+	V int64
+	Y [5]int32
+}
+type CF8 struct {
+	X [2]int64
+	V int64
+	Y [2]int64
+}
+type CF9 struct {
+	V int64
+	Y [5]int64
+}
+type CF10 struct {
+	X int64
+	V int64
+}
+type CF11 struct {
+	V int64
+	Y [6]int64
+}
+type CF12 struct {
+	X [5]int64
+	V int64
+}
 
 func (c *CF1) P() *int64  { return &c.V }
 func (c *CF2) P() *int64  { return &c.V }
